@@ -3043,6 +3043,11 @@ static void AssembleFile_InitPass(void) {
     EnumIncrement    = 1;
     EnumCurrentValue = 0;
 
+    /* a RADIX/OUTRADIX further down must not reach the lines above it in the next pass */
+
+    RadixBase    = 10;
+    OutRadixBase = 16;
+
     strmaxcpy(CurrFileName, "INTERNAL", STRINGSIZE);
     AddFile(CurrFileName);
     CurrLine = 0;
